@@ -669,7 +669,12 @@ def execute(sc):
                     if eos == "lo":
                         eos = next(v for v in (5, 4, 1, 8, 1001) if v not in used and v != sos)
                     try:
-                        ds = dataset(params=data.SpectDataParams(sos=sos, eos=eos), tokens_only=tokens_only)
+                        # the symbols are configured through the parameters or through the data set's own keywords
+                        if (len(sc["ops"]) + (sos or 0)) % 2:
+                            ds = dataset(params=data.SpectDataParams(sos=sos, eos=eos), tokens_only=tokens_only)
+                        else:
+                            ds = dataset(sos=sos, eos=eos, tokens_only=tokens_only)
+                            res.bump("probe.sos_eos_by_keyword")
                     except Exception as e:  # noqa
                         res.violate("read.construct", f"data set construction raised {type(e).__name__}: {e}")
                         return res
@@ -715,7 +720,10 @@ def execute(sc):
                     if two:
                         ht = torch.stack([ht, torch.full_like(ht, -1), torch.full_like(ht, -1)], -1).reshape(-1, 3)
                     try:
-                        ds = dataset(params=data.SpectDataParams(sos=sos if use_sos else None, eos=eos if use_eos else None))
+                        if r.random() < 0.5:
+                            ds = dataset(params=data.SpectDataParams(sos=sos if use_sos else None, eos=eos if use_eos else None))
+                        else:
+                            ds = dataset(sos=sos if use_sos else None, eos=eos if use_eos else None)
                         if utt not in ds.utt_ids:
                             continue
                         ds.write_hyp(utt, ht, f"{ROOT}/hyp2")
